@@ -8,6 +8,7 @@ checked by parsing what the writers wrote.
 from __future__ import annotations
 
 import csv
+import datetime as _dt
 import io
 import string
 
@@ -72,7 +73,175 @@ def select(names, fields, exclude):
 
 
 def cell_text(v):
-    return "" if v is None else str(v)
+    return "" if v is None else ref_str(v)
+
+
+# ---- text form of a value, computed from the value's COMPONENTS (never through the library's own __str__ / __repr__) ----------
+# The layouts are those documented at the pinned revision; Python's own str()/repr() of builtins (str, bytes, int, float, list,
+# dict) and the standard library's rendering of ipaddress / pathlib / datetime objects are taken as given.
+FALLBACKS = {}
+
+
+def _kind(v):
+    """Name of the flow field type class of a value (by class name, without importing the library)."""
+    for c in type(v).__mro__:
+        if c.__module__.startswith("flow.record"):
+            return c.__name__
+    return None
+
+
+def _display_zone():
+    import os
+    import zoneinfo
+
+    tz = os.environ.get("FLOW_RECORD_TZ", "UTC")
+    if tz.upper() == "NONE":
+        return None
+    try:
+        return zoneinfo.ZoneInfo(tz)
+    except Exception:  # noqa: BLE001
+        return _dt.timezone.utc
+
+
+_ZONE = "unset"
+
+
+def ref_datetime(v):
+    global _ZONE
+    if _ZONE == "unset":
+        _ZONE = _display_zone()
+    base = _dt.datetime
+    if _ZONE is not None:
+        try:
+            return base.isoformat(base.astimezone(v, _ZONE), " ")
+        except OverflowError:
+            pass
+    return base.isoformat(v, " ")
+
+
+def ref_filesize(x):
+    """Human readable size: 0 -> '0'; otherwise magnitude m = int(log(|x|, 10.24)); beyond m = 16 whole pebibytes '<n>PB';
+    else x / 1024**((m + 1) // 3) with one decimal when m % 3 == 1, two otherwise, a blank, the unit letter (' ' for bytes) and 'B'."""
+    import math
+
+    x = int(x)
+    if x == 0:
+        return "0"
+    m = int(math.log(abs(x), 10.24))
+    if m > 16:
+        return "%iPB" % (x * 1.0 / 1024 ** 5)
+    unit = (m + 1) // 3
+    fmt = "%2.1f" if m % 3 == 1 else "%1.2f"
+    return (fmt % (x * 1.0 / 1024 ** unit)) + " " + " KMGTP"[unit] + "B"
+
+
+def _dotted(n):
+    return "%d.%d.%d.%d" % ((n >> 24) & 255, (n >> 16) & 255, (n >> 8) & 255, n & 255)
+
+
+def _is_record(v):
+    return hasattr(v, "_desc") and hasattr(v, "__slots__")
+
+
+def ref_str(v):
+    """Reference of str(value)."""
+    if v is None:
+        return "None"
+    if hasattr(v, "records") and hasattr(v, "descriptors") or _is_record(v):
+        return ref_repr(v)
+    k = _kind(v)
+    if isinstance(v, _dt.datetime):
+        return ref_datetime(v)
+    if isinstance(v, str):
+        return str.__str__(v)
+    if k in ("path", "posix_path", "windows_path") or isinstance(v, __import__("pathlib").PurePath):
+        import pathlib
+
+        if getattr(v, "_empty_path", False):
+            return ""
+        return (pathlib.PureWindowsPath if isinstance(v, pathlib.PureWindowsPath) else pathlib.PurePosixPath).__str__(v)
+    if k in ("ipaddress", "ipnetwork"):
+        return str(v.val)
+    if k == "subnet":
+        return "%s/%d" % (_dotted(v.net), bin(v.mask & 0xFFFFFFFF).count("1"))
+    if k == "address":
+        return _dotted(v.val)
+    if isinstance(v, bool) or k in (None,) and isinstance(v, (int, float)):
+        return repr(v)
+    if isinstance(v, float):
+        return repr(float(v))
+    if k == "varint" and isinstance(v, int):
+        return str(int(v))
+    return ref_repr(v)
+
+
+def ref_repr(v):
+    """Reference of repr(value)."""
+    import pathlib
+
+    if v is None:
+        return "None"
+    if hasattr(v, "records") and hasattr(v, "descriptors"):
+        return "<%s [%s]>" % (v.name, ", ".join(ref_repr(m) for m in v.records))
+    if _is_record(v):
+        names = []
+        for _, n in v._desc.get_field_tuples():
+            if n not in names:
+                names.append(n)
+        return "<%s %s>" % (v._desc.name, " ".join("%s=%s" % (n, ref_repr(getattr(v, n))) for n in names))
+    k = _kind(v)
+    if isinstance(v, _dt.datetime):
+        return ref_datetime(v)
+    if isinstance(v, str):
+        return repr(str.__str__(v))
+    if isinstance(v, (bytes, bytearray)):
+        return repr(bytes(v))
+    if isinstance(v, pathlib.PurePath) and k is None:
+        return repr(v)  # a plain pathlib object: Python's own repr
+    if isinstance(v, pathlib.PurePath):
+        text = ref_str(v)
+        if isinstance(v, pathlib.PureWindowsPath):
+            quote = "'"
+            if "'" in text:
+                if '"' in text:
+                    text = text.replace("'", "\\'")
+                else:
+                    quote = '"'
+            return quote + text + quote
+        return repr(text)
+    if k == "ipaddress":
+        return "net.ipaddress(%r)" % str(v.val)
+    if k == "ipnetwork":
+        return "net.ipnetwork(%r)" % str(v.val)
+    if k == "subnet":
+        return "net.ipv4.subnet(%r)" % ref_str(v)
+    if k == "address":
+        return "net.ipv4.address(%r)" % ref_str(v)
+    if k == "digest":
+        return "(md5=%s, sha1=%s, sha256=%s)" % (v.md5, v.sha1, v.sha256)
+    if k in ("command", "posix_command", "windows_command"):
+        return "(executable=%s, args=%s)" % (ref_repr(v.executable), "None" if v.args is None else "[" + ", ".join(ref_repr(a) for a in v.args) + "]")
+    if k == "boolean":
+        return str(bool(v.value))
+    if k in ("uint16", "uint32"):
+        return str(int(v))
+    if k == "filesize":
+        return ref_filesize(v)
+    if k == "unix_file_mode":
+        return oct(int(v))
+    if isinstance(v, bool):
+        return repr(bool(v))
+    if isinstance(v, float):
+        return repr(float(v))
+    if isinstance(v, int):
+        return repr(int(v))
+    if isinstance(v, (list, tuple)):
+        inner = ", ".join(ref_repr(x) for x in v)
+        return "[" + inner + "]" if isinstance(v, list) else "(" + inner + ("," if len(v) == 1 else "") + ")"
+    if isinstance(v, dict):
+        return "{" + ", ".join("%s: %s" % (ref_repr(a), ref_repr(b)) for a, b in v.items()) + "}"
+    FALLBACKS[type(v).__name__] = FALLBACKS.get(type(v).__name__, 0) + 1
+    return repr(v)
 
 
 # ---- CSV ---------------------------------------------------------------------------------------------
@@ -320,8 +489,17 @@ class _ReferenceFormatter(string.Formatter):
 
     def format_field(self, value, format_spec):
         if format_spec == "defang" and _has_defang(value):
-            return ref_defang(str(value))
+            return ref_defang(ref_str(value))
+        if format_spec == "":
+            return ref_str(value)
         return format(value, format_spec)
+
+    def convert_field(self, value, conversion):
+        if conversion == "r":
+            return ref_repr(value)
+        if conversion == "s":
+            return ref_str(value)
+        return super().convert_field(value, conversion)
 
 
 def apply_template(template, values):
@@ -359,7 +537,7 @@ def _mentions(text, rec, pos):
             continue
         seen.add(n)
         try:
-            needle = "%s=%s" % (n, repr(getattr(rec, n)))
+            needle = "%s=%s" % (n, ref_repr(getattr(rec, n)))
         except Exception:  # noqa: BLE001 - the value has no printable form (reported elsewhere)
             continue
         j = text.find(needle, pos)
